@@ -316,6 +316,28 @@ func c57Prop(c c57Case, r *vp.Rec) error {
 			r.Class("tuple:collides-under-wrong-escape-order")
 		}
 	}
+	// The public entry points take the time from the wall clock. They are exercised
+	// with margins of an hour and more, so the few microseconds that pass between the
+	// calls cannot change a verdict.
+	tokNow := Generate(key, user, action)
+	switch {
+	case !Valid(tokNow, key, user, action):
+		return fmt.Errorf("Valid rejects the token Generate just returned for (key=%q,user=%q,action=%q)", key, user, action)
+	case !ValidFor(tokNow, key, user, action, time.Hour):
+		return fmt.Errorf("ValidFor(1h) rejects the token Generate just returned for (key=%q,user=%q,action=%q)", key, user, action)
+	case ValidFor(tokNow, key, user, action, -time.Hour):
+		return fmt.Errorf("ValidFor(-1h) accepts a token although issue time + timeout lies an hour in the past (key=%q,user=%q,action=%q)", key, user, action)
+	case Valid(tokNow, key2, user2, action2) != same:
+		return fmt.Errorf("token Generate returned for (key=%q,user=%q,action=%q) presented to Valid with (key=%q,user=%q,action=%q): valid=%v", key, user, action, key2, user2, action2, !same)
+	}
+	old := generateTokenAtTime(key, user, action, time.Now().Add(-48*time.Hour))
+	if Valid(old, key, user, action) {
+		return fmt.Errorf("Valid accepts a token issued 48 hours ago (Timeout is %v)", Timeout)
+	}
+	if !ValidFor(old, key, user, action, 72*time.Hour) {
+		return fmt.Errorf("ValidFor(72h) rejects a token issued 48 hours ago")
+	}
+	r.Class("wall-clock entry points checked")
 	// statistics only: strings that were never generated as tokens
 	for _, m := range c.Malformed {
 		for _, chk := range c.Checks {
